@@ -600,11 +600,12 @@ where
     fn execute(&self, _problem: &P, state: &mut State<P>) -> ExecResult<()> {
         let mut populations = state.populations_mut();
         for solution in populations.current_mut().as_solutions_mut() {
-            let [start, end]: [_; 2] = (0..solution.len())
+            let [a, b]: [_; 2] = (0..solution.len())
                 .choose_multiple(&mut *state.random_mut(), 2)
                 .try_into()
                 .unwrap();
-            solution[start..end].reverse();
+            // The sampled indices are in no particular order.
+            solution[a.min(b)..a.max(b)].reverse();
         }
         Ok(())
     }
